@@ -534,11 +534,25 @@ pub fn run_batch(prop: &'static dyn Property, cfg: &BatchConfig) -> i32 {
     let mut exit = 0;
     let mut replay_paths: Vec<String> = Vec::new();
     if !real.is_empty() {
+        let mut tally: BTreeMap<String, u64> = BTreeMap::new();
+        for (_, v) in &real {
+            *tally.entry(v.signature()).or_insert(0) += 1;
+        }
+        for (sig, n) in &tally {
+            println!("  violation tally: {n} x {sig}");
+        }
+    }
+    if !real.is_empty() {
         exit = 1;
         // report one violation per distinct kind, minimised (at most 3)
         let mut seen: BTreeSet<String> = BTreeSet::new();
         for (f, v) in &real {
-            if !seen.insert(v.kind.clone()) || seen.len() > 3 {
+            if let Ok(only) = std::env::var("VERIF_ONLY_SIG") {
+                if !v.signature().contains(&only) {
+                    continue;
+                }
+            }
+            if !seen.insert(v.signature()) || seen.len() > 4 {
                 continue;
             }
             let path = minimise_and_write(prop, &f.plan, f.seed, v, &known, cfg);
@@ -636,7 +650,7 @@ pub fn run_batch(prop: &'static dyn Property, cfg: &BatchConfig) -> i32 {
 fn same_violation(r: &RunResult, target: &Violation, known: &[KnownFinding], prop: &str) -> Option<Violation> {
     r.violations
         .iter()
-        .find(|v| v.kind == target.kind && matches_known(v, prop, known).is_none())
+        .find(|v| v.signature() == target.signature() && matches_known(v, prop, known).is_none())
         .cloned()
 }
 
